@@ -338,7 +338,7 @@ func ruleC02(w *World, r *Report) {
 			if isNilConst(t.val) {
 				// allowed only under a failed type assertion of msg or a failed accessor on a request IE
 				okNil := nilReplyJustified(h, t.ret, msgParam)
-				r.check(okNil, "R02.1", hn, fmt.Sprintf("nil reply #%d only on bad type / unreadable mandatory IE", k+1), w.Pos(t.ret.Pos()), "failed type assertion or IE accessor error", "a request can be dropped silently on a path that is not a decoding failure")
+				r.check(okNil, "R02.1", hn, fmt.Sprintf("nil reply #%d only on bad type / absent or unreadable mandatory IE", k+1), w.Pos(t.ret.Pos()), "failed type assertion or IE accessor error", "a request can be dropped silently on a path that is not a decoding failure")
 				continue
 			}
 			c, ok := t.val.(*ssa.Call)
@@ -463,6 +463,10 @@ func nilReplyJustified(h *ssa.Function, ret *ssa.Return, msgParam *ssa.Parameter
 					return rootsAre(s, msgParam)
 				}
 			}
+		}
+		// a mandatory IE of the request is absent
+		if ok && op == token.EQL && isNilConst(y) && typeName(x.Type()) == "*"+iePkg+".IE" {
+			return rootsAre(symOf(x), msgParam)
 		}
 		return false
 	})
